@@ -1,7 +1,7 @@
 """Contracts for filter_expressions.py and function_extensions (C02, C06, C10, C13)"""
 from pyvc.contracts import contract
 
-EV_REQ = ["wf_ctx(context)", "wf_expr(self, context.env)"]
+EV_REQ = ["wf_ctx(context)", "det(context.env)", "wf_expr(self, context.env)"]
 
 contract("filter_expressions:Expression.evaluate", abstract=True,
     requires=["isinstance(self, Expression)"] + EV_REQ,
@@ -13,7 +13,7 @@ contract("filter_expressions:_is_truthy",
     ensures=["result == truth_of(obj)"], raises=[], props=["C02"],
     note="operands of tests are nodelists or LogicalType results in well-typed queries (wf_expr: logical_typed)")
 
-contract("filter_expressions:FilterExpression.evaluate",
+contract("filter_expressions:FilterExpression.evaluate", heavy=True,
     requires=EV_REQ, unfold=["wf_filter_e", "eval_filter"],
     ensures=["result == eval_expr(self, context)"], raises=["JSONPathError"], props=["C02", "C13"])
 
@@ -21,32 +21,35 @@ contract("filter_expressions:FilterExpressionLiteral.evaluate",
     requires=["isinstance(self, FilterExpressionLiteral)"],
     ensures=["result == eval_expr(self, _)"], raises=[], props=["C02", "C06"])
 
-contract("filter_expressions:PrefixExpression.evaluate",
+contract("filter_expressions:PrefixExpression.evaluate", heavy=True,
     requires=EV_REQ, unfold=["wf_prefix_e", "eval_prefix"],
     ensures=["result == eval_expr(self, context)"], raises=["JSONPathError"], props=["C02", "C13"])
 
-contract("filter_expressions:LogicalExpression.evaluate",
+contract("filter_expressions:LogicalExpression.evaluate", heavy=True,
     requires=EV_REQ, unfold=["wf_logical_e", "eval_logical"],
     ensures=["result == eval_expr(self, context)"], raises=["JSONPathError"], props=["C02", "C13"])
 
-contract("filter_expressions:ComparisonExpression.evaluate",
+contract("filter_expressions:ComparisonExpression.evaluate", heavy=True,
     requires=EV_REQ, unfold=["wf_comparison_e", "eval_comparison"],
     ensures=["result == eval_expr(self, context)"], raises=["JSONPathError"], props=["C06", "C02", "C13"],
     lemmas=["singular_at_most_one"])
 
-contract("filter_expressions:RelativeFilterQuery.evaluate",
-    requires=EV_REQ, unfold=["eval_relative", "wf_query"],
-    ensures=["result == eval_expr(self, context)"], raises=["JSONPathError"], props=["C02", "C10", "C13"])
+contract("filter_expressions:RelativeFilterQuery.evaluate", heavy=True,
+    requires=EV_REQ, unfold=["eval_relative", "wf_query", "wf_ctx"],
+    ensures=["result == eval_expr(self, context)"],
+    loops={1: ["wf_nodes(nodes)",
+               "implies(no_pending(nodes), seq(nodes) == apply_segments(seq(self.query.segments), [Node(context.current, mk_tuple([]), context.root)], i1))"]},
+    raises=["JSONPathError"], props=["C02", "C10", "C13"])
 
-contract("filter_expressions:RootFilterQuery.evaluate",
+contract("filter_expressions:RootFilterQuery.evaluate", heavy=True,
     requires=EV_REQ, unfold=["eval_root", "wf_query"],
     ensures=["result == eval_expr(self, context)"], raises=["JSONPathError"], props=["C02", "C13"])
 
-contract("filter_expressions:FunctionExtension.evaluate",
+contract("filter_expressions:FunctionExtension.evaluate", heavy=True,
     requires=EV_REQ, unfold=["wf_call_e", "eval_call", "wf_env", "wf_registry"],
     ensures=["result == eval_expr(self, context)"], raises=["JSONPathError"], props=["C10", "C13"])
 
-contract("filter_expressions:FunctionExtension._unpack_node_lists",
+contract("filter_expressions:FunctionExtension._unpack_node_lists", heavy=True,
     requires=["wf_func(func)", "is_arr(args)", "len(args) == len(func.arg_types)"], unfold=["wf_func"],
     ensures=["result == mk_list(conv_vals(seq(func.arg_types), seq(args), len(args)))"],
     loops={1: ["_args == mk_list(conv_vals(seq(func.arg_types), seq(args), i1))"]},
@@ -63,7 +66,12 @@ contract("filter_expressions:_compare",
 
 contract("filter_expressions:_eq",
     requires=["is_cmp_arg(left)", "is_cmp_arg(right)"], unfold=["is_json", "rfc_eq", "py_eq"],
-    ensures=["result == cmp_eq(comparand(left), comparand(right))"], raises=[], props=["C06"])
+    ensures=["result == cmp_eq(comparand(left), comparand(right))"],
+    loops={1: ["is_arr(left) and is_arr(right) and len(left) == len(right) and is_json(left) and is_json(right)",
+               "all(rfc_eq(seq(left)[j], seq(right)[j]) for j in range(i1))"],
+           2: ["is_obj(left) and is_obj(right) and nkeys(left) == nkeys(right) and is_json(left) and is_json(right)",
+               "all(has_key(right, key_at(left, j)) and rfc_eq(val_at(left, j), get(right, key_at(left, j))) for j in range(i2))"]},
+    raises=[], props=["C06"])
 
 contract("filter_expressions:_lt",
     requires=["is_cmp_arg(left)", "is_cmp_arg(right)"], unfold=["is_json"],
